@@ -53,7 +53,8 @@ REACH = ["parsimony:parsimony_score", "parsimony:fitch_down_pass", "charmatrixmo
          "parsimony:fitch_up_pass", "parsimony:_retrieve_state_sets_from_attr", "parsimony:_NodeStateSetMap.__getitem__",
          "charstatemodel:StateIdentity._get_fundamental_states", "charstatemodel:StateIdentity._get_fundamental_indexes_with_gaps_as_missing",
          "charstatemodel:StateAlphabet.new_multistate", "nexusreader:NexusReader._get_state_for_multistate_tokens"]
-MIN_EVENTS = {"tree-with-taxa-on-internal-nodes-that-have-matrix-rows": (600, 1000), 
+MIN_EVENTS = {"tree-with-taxa-on-internal-nodes-that-have-matrix-rows": (600, 1000), "alphabet-grown": (150, 1000),
+    "alphabet-grown-score-compared:after-growth-1": (250, 1800), "alphabet-grown-score-compared:before": (200, 1500),
     # (quick, thorough): about 40-45 % of what clean runs observe
     "score-compared-with-oracle": (11000, 22000), "repeat-call-compared": (8000, 17000), "bruteforce-crosscheck": (12000, 25000),
     "rerooted-compared": (1300, 2800), "per-character-list-compared": (11000, 22000), "per-character-list-compared-on-used-object": (6000, 13000),
@@ -131,6 +132,8 @@ def cases(tier, seed):
     n = 9000 if tier == "quick" else 15000
     for i in range(n):
         yield {"kind": "random", "i": i, "seed": seed}
+    for i in range(300 if tier == "quick" else 2000):
+        yield {"kind": "alphabet-grown", "i": i, "seed": seed}
 
 
 class Journal(object):
@@ -934,7 +937,75 @@ def run_case(case, ctx):
         if case["kind"] == "directed-purity":
             directed(ctx, rng, journal)
             return
+        if case["kind"] == "alphabet-grown":
+            alphabet_grown(ctx, rng, journal)
+            return
         History(ctx, rng, journal, case).run()
+
+
+def alphabet_grown(ctx, rng, journal):
+    """A generated Standard alphabet gains fundamental states AFTER matrices over it were scored (new_fundamental_state +
+    compile_lookup_mappings, 1-2 rounds).  The score of a matrix is a function of tree and matrix only: the missing-data and gap
+    cells of every LATER matrix stand for the enlarged state set, whatever the state objects worked out for earlier calls.  Each
+    call is compared with the Sankoff oracle over the state set the alphabet has at that moment, for gaps_as_missing True and
+    False, on the tree object used before and on a fresh build."""
+    import dendropy
+    from dendropy.datamodel import charstatemodel
+    from dendropy.model import parsimony
+    n = rng.choice([3, 4, 4, 5, 6, 8])
+    rooted = rng.random() < 0.5
+    spec = random_binary(rng, n, rooted)
+    labels = sorted(ref.leaf_taxa(spec))
+    ns = dendropy.TaxonNamespace(labels)
+    tree = bridge.build_tree(ref.copy(spec), ns, rooted)
+    pool = list("0123456789")
+    rng.shuffle(pool)
+    k = rng.choice([1, 2, 3])
+    syms = pool[:k]
+    spare = pool[k:]
+    sa = charstatemodel.new_standard_state_alphabet("".join(syms))
+    prime = rng.random() < 0.85               # else: control without an earlier call
+    ncol = rng.choice([1, 2, 3, 5])
+    done = []
+
+    def one_round(tag, tr):
+        kind = lib.Kind("custom-grown", dict((x, frozenset([x])) for x in syms), list(syms))
+        toks = list(syms) * 2 + ["?", "?", "-"]
+        rows = dict((l, [rng.choice(toks) for _ in range(ncol)]) for l in labels)
+        m = dendropy.StandardCharacterMatrix(taxon_namespace=ns, default_state_alphabet=sa)
+        m = dendropy.StandardCharacterMatrix.from_dict(dict((l, list(rows[l])) for l in labels), char_matrix=m)
+        earlier = bool(done)                  # some matrix over this alphabet was scored before this round
+        for gam in rng.sample([True, False], 2):
+            want = sum(oracle_scores(spec, rows, kind, gam, ctx, True))
+            try:
+                got = parsimony.parsimony_score(tr, m, gaps_as_missing=gam)
+            except core.CaseTimeout:
+                raise
+            except Exception as e:
+                ctx.violation("parsimony_score|raises|%s|alphabet-grown" % type(e).__name__, core.exc_brief(e),
+                              {"tree": ref.to_newick(spec), "rows": rows, "alphabet": list(syms), "history": list(done)})
+                continue
+            ctx.ev("score-compared-with-oracle")
+            ctx.ev("alphabet-grown-score-compared:%s" % tag)
+            done.append("%s: %d symbols, gaps_as_missing=%s -> %r" % (tag, len(syms), gam, got))
+            if got != want:
+                ctx.violation("parsimony_score|not-minimal|custom|%s|gaps_as_missing=%s" % (
+                    "alphabet-grown-after-an-earlier-call" if (tag != "before" and earlier) else "alphabet-grown" if tag != "before" else "generated-alphabet", gam),
+                    "score %r, minimum number of changes %r over the %d states the alphabet has now" % (got, want, len(syms)),
+                    {"tree": ref.to_newick(spec), "rows": rows, "alphabet": list(syms), "history": list(done)})
+    if prime:
+        one_round("before", tree)
+    for r in range(rng.choice([1, 1, 2])):
+        for _ in range(rng.choice([1, 1, 2])):
+            if not spare:
+                break
+            x = spare.pop()
+            sa.new_fundamental_state(x)
+            syms.append(x)
+        sa.compile_lookup_mappings()
+        ctx.ev("alphabet-grown")
+        one_round("after-growth-%d" % (r + 1), tree if rng.random() < 0.6 else bridge.build_tree(ref.copy(spec), ns, rooted))
+    ctx.nontrivial(("alphabet-grown", ref.to_newick(spec), k, len(syms), prime))
 
 
 def directed(ctx, rng, journal):
